@@ -48,18 +48,19 @@ theorem ifElseList_one (x y : List Int) (h : x.length ≤ y.length) : ifElseList
     | nil => simp at h
     | cons b y => simp only [List.zipWith_cons_cons, List.length_cons] at h ⊢; rw [ih y (by omega)]; simp
 
-/-- `cs_f` is the conditional-step function of `f` (docstring (*)) and all values of `f` have the same
+/-- `cs_f` is the conditional-step function of `f` (docstring (*)) at the indices i ≥ 0 it is called with and all values of `f` have the same
 number of components -/
 def Consistent (fs : FSpec) : Prop :=
-  (∀ (i b : Int), (b = 0 ∨ b = 1) → fs.cs b i = fs.f (i + b)) ∧ ∀ i j : Int, (fs.f i).length = (fs.f j).length
+  (∀ (i b : Int), 0 ≤ i → (b = 0 ∨ b = 1) → fs.cs b i = fs.f (i + b)) ∧
+    ∀ i j : Int, (fs.f i).length = (fs.f j).length
 
 theorem consistent_default : Consistent .default :=
-  ⟨fun _ _ _ => rfl, fun _ _ => rfl⟩
+  ⟨fun _ _ _ _ => rfl, fun _ _ => rfl⟩
 
 theorem consistent_givenF (f : Int → List Int) (hlen : ∀ i j, (f i).length = (f j).length) :
     Consistent (.givenF f) := by
   refine ⟨?_, hlen⟩
-  intro i b hb
+  intro i b _ hb
   simp only [FSpec.cs, FSpec.f]
   rcases hb with rfl | rfl
   · have := ifElseList_zero (f (i + 1)) (f i) (by rw [hlen])
@@ -79,8 +80,8 @@ theorem cl_spec (fs : FSpec) (hc : Consistent fs) (i : Nat) (seg : List Int) (hn
     rw [cl.eq_def]
     simp only [List.length_singleton, Nat.one_lt_ofNat, if_true]
     rcases hb b (by simp) with rfl | rfl
-    · simp [fz, hc.1 i 0 (Or.inl rfl)]
-    · simp [fz, hc.1 i 1 (Or.inr rfl)]
+    · simp [fz, hc.1 i 0 (Int.natCast_nonneg i) (Or.inl rfl)]
+    · simp [fz, hc.1 i 1 (Int.natCast_nonneg i) (Or.inr rfl)]
   | case2 i seg hlen hnb =>
     match seg, hlen, hnb with
     | [], _, _ => exact absurd rfl hne
